@@ -368,6 +368,20 @@ def run(ctx):
                         ctx.violation('ellipsis-directive', {
                             'what': 'doctest with directive %r: passed=%r, by construction %r' % (d, passed, exp), 'doctest': '\n'.join(lines),
                             'got': out, 'want': want, 'expected_pass': exp, 'theorem_or_correspondence': 'C06 on DocTest.run with the flag set by a directive'}, True)
+    # the flag a doctest sees is its own: a run hands one options dict to every doctest, and a block directive of an earlier
+    # doctest must not decide whether '...' is a wildcard in a later one
+    for dflt in ({'ELLIPSIS': True}, {'ELLIPSIS': False}, {'NORMALIZE_WHITESPACE': False}):
+        for sign in ('+', '-'):
+            for out, want, wild in (('alpha beta gamma', 'alpha ... gamma', True), ('a...b', 'a...b', False)):
+                docs = ['>>> # xdoctest: %sELLIPSIS\n>>> print(1)\n1' % sign, ">>> print(%r)\n%s" % (out, want)]
+                exp = [True, dflt.get('ELLIPSIS', True) if wild else True]
+                got_v = _e2e_history(docs, dict(dflt))
+                ne2e += 1
+                if got_v != exp:
+                    ctx.violation('ellipsis-history', {
+                        'what': 'doctests run one after the other over shared default options %r: passed=%r, by construction %r' % (dflt, got_v, exp),
+                        'history': docs, 'default_runtime_state': dflt, 'expected_pass': exp,
+                        'theorem_or_correspondence': 'C06 on DocTest.run with the flag left at its default'}, True)
     ctx.evaluations += ne2e
     ctx.count('directive_end_to_end', ne2e)
     ctx.evaluations += nmeta
@@ -377,6 +391,21 @@ def run(ctx):
         'model <-> code tie is the correspondence run above (differential test, bounded)',
         'characters outside {0..255, U+2028, U+3000} are not generated',
     ]
+
+
+def _e2e_history(docs, shared):
+    from xdoctest import doctest_example
+    import contextlib, io
+    res = []
+    for doc in docs:
+        ex = doctest_example.DocTest(docsrc=doc, lineno=1)
+        ex.config['default_runtime_state'] = shared
+        with contextlib.redirect_stdout(io.StringIO()):
+            try:
+                res.append(bool(ex.run(verbose=0, on_error='return')['passed']))
+            except BaseException as e:      # noqa
+                res.append('raised %s' % type(e).__name__)
+    return res
 
 
 def _rand_worker(pairs):
@@ -391,6 +420,13 @@ def replay(path):
     if d.get('kind') == 'gvw-unit':
         from harness.props import c02
         return c02.replay_gvw(d, path, 'C06')
+    if d.get('kind') == 'ellipsis-history':
+        got_v = _e2e_history(d['history'], dict(d['default_runtime_state']))
+        print('history:\n%s\npassed=%r expected=%r' % ('\n--\n'.join(d['history']), got_v, d['expected_pass']))
+        if got_v != d['expected_pass']:
+            print('VIOLATION property=C06 replay=%s' % path)
+            return 1
+        return 0
     if d.get('kind') == 'ellipsis-directive':
         from xdoctest import doctest_example
         import contextlib, io
